@@ -32,11 +32,14 @@ def search_inflection(failure):
             if not c.get('agree', True):
                 return {'request': {'op': 'binding_keys'}, 'result': c}
         return None
-    if failure.get('only_for'):
+    only = failure.get('only_for')
+    if only in ('C09', 'C04'):
         o = batch([{'op': 'binding_keys'}])[0]
         for c in o.get('cases', []):
             if not c.get('agree', True):
                 return {'request': {'op': 'binding_keys'}, 'result': c}
+    if only == 'C04':
+        return None
     parts = name.split('.')
     rules = list(RULES)
     poss = ['field', 'variant']
@@ -50,6 +53,8 @@ def search_inflection(failure):
     outs = batch(reqs)
     for rq, o in zip(reqs, outs):
         if not o.get('agree', True):
+            if only == 'C16' and not o.get('panic'):
+                continue    # a wrong name is C09's business; only a panic speaks for C16
             return {'request': rq, 'result': o}
     return None
 
@@ -190,9 +195,11 @@ def _hist_subsearches():
     def reach():
         # every exportable type reachable from the root gets its file, also when it is reachable only through the arguments of a
         # type written without `<..>` (alias) or through a type argument of the root
-        for root, dep in (('AL', 'P1'), ('GR', 'P2'), ('RS', 'P3'), ('RS', 'P1'), ('C', 'A'), ('D', 'C')):
+        for root, dep in (('AL', 'P1'), ('GR', 'P2'), ('RS', 'P3'), ('RS', 'P1'), ('VA', 'P2'), ('IR', 'P3'), ('C', 'A'), ('D', 'C')):
             a = run_history([['export_all', root]])
             b = run_history([['export_all', root], ['export_all', dep]])
+            if any(r != 'ok' for r in b.get('results', [])):
+                raise RuntimeError(f'reach: reference history failed: {b.get("results")}')
             if a.get('files') != b.get('files') or any(r != 'ok' for r in a.get('results', [])):
                 return {'request': {'op': 'export_history', 'steps': [['export_all', root]]}, 'result': {'files': a.get('files'), 'results': a.get('results'),
                         'expected_files': b.get('files'), 'agree': False, 'note': f'expected_files = export_all({root}) followed by export_all({dep}): {dep} is reachable from {root}, so the second call must change nothing'}, 'kind': 'history'}
@@ -317,7 +324,38 @@ def search_attrs(failure):
     return None
 
 
-SEARCHERS = {'inflection': search_inflection, 'paths': search_paths, 'paths_esm': search_paths, 'export_chain': search_export_history, 'registry': search_export_history, 'lexical': search_lexical, 'recursion': search_export_history, 'merge': search_export_history, 'merge_imports': search_export_history, 'deps': search_export_history, 'gen_imports': search_export_history, 'containers': search_export_history, 'attrs': search_attrs, 'parsers': search_attrs}
+def search_templates(failure):
+    """Generated code (unit templates) on really derived types: literal shapes of the enum representations, documented fields,
+    output paths (directory form / file form / default)."""
+    only = failure.get('only_for')
+    ob = failure['obligation']
+    if only in (None, 'C04', 'C15'):
+        o = batch([{'op': 'variant_literals'}])[0]
+        for c in o.get('cases', []):
+            is_doc = 'documentation' in c.get('case', '')
+            if only == 'C15' and not is_doc:
+                continue
+            if only == 'C04' and is_doc:
+                continue
+            if not c.get('agree', True):
+                return {'request': {'op': 'variant_literals'}, 'result': c}
+    if only in (None, 'C04'):
+        o = batch([{'op': 'binding_keys'}])[0]
+        for c in o.get('cases', []):
+            if not c.get('agree', True):
+                return {'request': {'op': 'binding_keys'}, 'result': c}
+    if only in (None, 'C11'):
+        # D is exported in directory form (`nested/dir/`), A..Z in file form, C by default
+        got = run_history([['export_all', 'D']])
+        have = sorted(got.get('files', {}).keys())
+        want_files = ['bindings/C.ts', 'bindings/nested/dir/D.ts', 'bindings/shared.ts']
+        if have != want_files:
+            return {'request': {'op': 'export_history', 'steps': [['export_all', 'D']]}, 'result': {'files': got.get('files'), 'expected_file_names': want_files, 'agree': False,
+                    'note': 'default: <name>.ts; export_to ending in `/`: that directory + <name>.ts; otherwise the given file'}, 'kind': 'history-files', 'want': want_files}
+    return None
+
+
+SEARCHERS = {'inflection': search_inflection, 'paths': search_paths, 'paths_esm': search_paths, 'export_chain': search_export_history, 'registry': search_export_history, 'lexical': search_lexical, 'recursion': search_export_history, 'merge': search_export_history, 'merge_imports': search_export_history, 'deps': search_export_history, 'gen_imports': search_export_history, 'containers': search_export_history, 'attrs': search_attrs, 'parsers': search_attrs, 'templates': search_templates, 'field_deps': search_export_history}
 
 
 def search(pid, unit, failure, seed):
@@ -328,7 +366,7 @@ def search(pid, unit, failure, seed):
 
 
 # properties each searcher's oracle can speak for (bounded stand-in only)
-SPEAKS_FOR = {'search_attrs': ('C09', 'C10', 'C16'), 'search_inflection': ('C09', 'C16'), 'search_paths': ('C08', 'C17'), 'search_lexical': ('C04', 'C15'),
+SPEAKS_FOR = {'search_templates': ('C04', 'C11', 'C15'), 'search_attrs': ('C09', 'C10', 'C16'), 'search_inflection': ('C04', 'C09', 'C16'), 'search_paths': ('C08', 'C17'), 'search_lexical': ('C04', 'C15'),
               'search_export_history': ('C04', 'C05', 'C06', 'C11', 'C13', 'C15', 'C17')}
 
 
@@ -343,6 +381,11 @@ def search_standin(pid, unit):
 
 def rerun(rec):
     w = rec['witness']
+    if w.get('kind') == 'history-files':
+        got = run_history(w['request']['steps'])
+        have = sorted(got.get('files', {}).keys())
+        print('replayed history on the current tree, files written:', have, 'expected:', w['want'])
+        return 1 if have != w['want'] else 0
     if w.get('kind') == 'history-imports':
         got = run_history(w['request']['steps'])
         txt = got.get('files', {}).get(w['file']) or ''
